@@ -523,12 +523,12 @@ theorem C10_rejects_align_non_numeric (fix : Bool) (from_ to period : Int) (d : 
   simp [execDLAligned, hd, h]
 
 /-- datasource aligner filter (stand-alone, with or without fill mode): a non-numeric field is rejected -/
-theorem C10_rejects_align_filter_non_numeric (p : Int) (fill : Option FillMode) (res : DResult D)
+theorem C10_rejects_align_filter_non_numeric (p : PeriodK) (fill : Option FillMode) (res : DResult D)
     (h : res.1.dt.isNumeric = false) : applyDXF O (.align p fill) res = .error .alignNonNumeric := by
   simp [applyDXF, alignDF, h]
 
 /-- report aligner filter: one non-numeric field among the fields is enough to be rejected -/
-theorem C10_rejects_align_report_non_numeric (p : Int) (fill : Option FillMode) (res : RResult D)
+theorem C10_rejects_align_report_non_numeric (p : PeriodK) (fill : Option FillMode) (res : RResult D)
     (h : ∃ m ∈ res.1, m.dt.isNumeric = false) : applyRXF O (.align p fill) res = .error .alignNonNumeric := by
   obtain ⟨m, hm, hn⟩ := h
   have : res.1.any (fun m => !m.dt.isNumeric) = true := by
@@ -694,7 +694,7 @@ def exCounter : DDs Unit := .static ⟨"c", .integer, "", true, none⟩ [⟨1, .
 def exStream : DDs Unit :=
   chainD exCounter [.x (.delta false ()),
     .plain (.fval (.num .add .ref (.const ⟨.integer, "", true, none⟩ (.int 1))) ⟨"d", none, ""⟩),
-    .x (.align 10 (some .forwardFill))]
+    .x (.align (.fixed 10) (some .forwardFill))]
 
 theorem exCounter_wf : WfD exCounter := by
   simp only [exCounter, WfD]
@@ -704,7 +704,7 @@ theorem exCounter_wf : WfD exCounter := by
 
 theorem exStream_wf : WfD exStream := by
   simp only [exStream, chainD, WfD, DXFilter.periodOk, and_true]
-  exact ⟨exCounter_wf, by decide⟩
+  exact ⟨exCounter_wf, show (0 : Int) < 10 by decide⟩
 
 /-- `C10_sound` applies to `exStream`: accepted; deltas 2 and 5, plus one, aligned to the periods 0 and 30 (the second
 value interpolated: with the unit carrier every float is `()` and `int64(())` is 0), the gap at 10 and 20 forward-filled -/
@@ -726,13 +726,13 @@ example : applyDXF unitOps (.delta true ()) ((⟨"s", .string, "", true, none⟩
     .error .deltaNonNumeric := (C10_rejects_delta unitOps true () _).1 rfl
 example : applyDXF unitOps (.rate "" 1 false ()) ((⟨"o", .integer, "", false, none⟩ : FieldMeta), ([] : DStream Unit)) =
     .error .rateOptional := (C10_rejects_rate unitOps "" 1 false () _).2 rfl rfl
-example : applyDXF unitOps (.align 10 (some .linear)) ((⟨"b", .boolean, "", true, none⟩ : FieldMeta), ([] : DStream Unit)) =
-    .error .alignNonNumeric := C10_rejects_align_filter_non_numeric unitOps 10 _ _ rfl
+example : applyDXF unitOps (.align (.fixed 10) (some .linear)) ((⟨"b", .boolean, "", true, none⟩ : FieldMeta), ([] : DStream Unit)) =
+    .error .alignNonNumeric := C10_rejects_align_filter_non_numeric unitOps (.fixed 10) _ _ rfl
 
 /-- `C10_rejects_align_report_non_numeric` fires: one string column among numeric ones -/
-example : applyRXF unitOps (.align 10 none)
+example : applyRXF unitOps (.align (.fixed 10) none)
     (([⟨"a", .integer, "", true, none⟩, ⟨"s", .string, "", true, none⟩] : List FieldMeta), ([] : RStream Unit)) =
       .error .alignNonNumeric :=
-  C10_rejects_align_report_non_numeric unitOps 10 none _ ⟨⟨"s", .string, "", true, none⟩, by simp, rfl⟩
+  C10_rejects_align_report_non_numeric unitOps (.fixed 10) none _ ⟨⟨"s", .string, "", true, none⟩, by simp, rfl⟩
 
 end ShpanVerif.Props.C10
